@@ -82,9 +82,9 @@ def run(ctx):
 
     keys = []
     for fn in ("blots_core::values::SerializableValue::from_json", "blots_core::values::SerializableValue::to_json"):
-        for n in H.walk(core.hir_fn(fn)["body"]):
-            if H.kind(n) == "Lit" and n["lk"] == "str" and n["v"].startswith("__"):
-                keys.append((H.last(fn), n["v"], H.loc(n)))
+        for v_ in H.str_lits(core.hir_fn(fn)["body"], core):
+            if v_.startswith("__"):
+                keys.append((H.last(fn), v_, H.loc(core.hir_fn(fn)["body"])))
     vals = {k for _, k, _ in keys}
     for i, (fn, k, loc) in enumerate(keys):
         ctx.inst("C05.L8", "%s#key[%d]" % (fn, i), len(vals) == 1 and k == "__blots_function", "literal %r" % k, loc)
